@@ -933,8 +933,20 @@ def _symbolic_mask(idx, shape):
     return isinstance(idx, SymTensor) and idx.dtype == torch.bool and tuple(idx.sym.shape) == tuple(shape) and any(T.num_value(x) is None for x in idx.sym.reshape(-1))
 
 
+def _symbolic_int_index(i):
+    return isinstance(i, SymTensor) and i.dtype in (torch.int64, torch.int32) and i.sym.ndim == 1 and any(T.num_value(x) is None for x in i.sym.reshape(-1))
+
+
 @handler("__getitem__")
 def _getitem(a, idx):
+    if isinstance(idx, tuple) and len(idx) == 2 and _symbolic_int_index(idx[0]):
+        # value[argmin_index, arange(n)]: pick, for each column position, the row given by a symbolic index (If-chain)
+        cols = _concrete_np(idx[1])
+        n = idx[0].sym.shape[0]
+        if cols.shape != (n,):
+            raise Unsupported("advanced indexing with a symbolic index: unsupported layout")
+        rows = [select_by_index(a.sym[:, int(cols[i])], idx[0].sym[i]) for i in range(n)]
+        return mk(np.array([r if isinstance(r, np.ndarray) else np.array(r, dtype=object) for r in rows], dtype=object).reshape((n,) + a.sym.shape[2:]), a.dtype)
     if _symbolic_mask(idx, a.sym.shape):
         # data-dependent selection `a[mask]`: kept as a full-shape *masked view*; only elementwise updates followed by
         # `a[mask] = view` (the pattern `a[mask] *= c`) are supported on it
